@@ -20,7 +20,7 @@ RULE = ("Values from (i) the EXHAUSTIVE small domain: all JSON values with <=2 c
         "(ii) Hypothesis JSON values (depth<=6, full unicode, ints to +-2^80, finite floats incl. "
         "-0.0, 5e-324, 1e308), (iii) a boundary list; stored through every entry point {constructor, "
         "setitem, slice assignment, setdefault, update(mapping|pairs|**kw|both), reset, append, extend, "
-        "insert, +=} at root / nested dict / nested list / depth-3 targets of all 18 classes, over an "
+        "insert, +=, and attribute assignment for attribute-access dicts} at root / nested dict / nested list / depth-3 targets of all 18 classes, over an "
         "empty prior state or over a prior value at the same position (so overwrites by ==-equal "
         "values of another JSON type happen). Oracle: the call does not raise; a FRESH collection "
         "object on the same resource returns () that is == the model and type-identical at every "
@@ -84,6 +84,8 @@ def apply_entry(ci, root, res, entry, path, val, prior_key):
             obj[prior_key] = val
         else:
             obj[prior_key] = val
+    elif entry == "setattr":
+        setattr(obj, prior_key, val)       # attribute-access dicts: obj.p = value
     elif entry == "setdefault":
         obj.setdefault(prior_key, val)
     elif entry == "update_map":
@@ -110,7 +112,7 @@ def apply_entry(ci, root, res, entry, path, val, prior_key):
 
 def model_entry(cont, entry, val, prior_key):
     v = copy.deepcopy(val)
-    if entry in ("setitem", "update_map", "update_pairs", "update_kw"):
+    if entry in ("setitem", "setattr", "update_map", "update_pairs", "update_kw"):
         cont[prior_key] = v
     elif entry == "setdefault":
         cont.setdefault(prior_key, v)
@@ -224,6 +226,8 @@ def coords(ci):
                 if e == "ctor" and target != "root":
                     continue
                 out.append((e, target, want))
+            if want == "dict" and ci.attr:
+                out.append(("setattr", target, want))
     return out
 
 
